@@ -83,6 +83,32 @@ def gridExact (g : Geom) : Bool :=
   (coordsIter g).all (fun p =>
     (p.x * 16).den == 1 && (p.y * 16).den == 1 && rabs p.x ≤ 1048576 && rabs p.y ≤ 1048576)
 
+/-- the same regime at any dyadic scale: all coordinates of the operands together are integers below 2^24 times one
+power of two 2^e with |e| ≤ `emax` — scaling by a power of two commutes with every f64 operation as long as no product
+overflows or underflows (emax = 300); between point-like operands only `hypot` is evaluated, which is safe at any
+magnitude (emax = 1000) -/
+def dyadicGridAll (emax : Int) (gs : List Geom) : Bool :=
+  let vals := ((gs.flatMap coordsIter).flatMap (fun p => [p.x, p.y])).filter (· != 0)
+  let val2 (q : Rat) : Option Int :=
+    let d := q.den
+    let k := Nat.log2 d
+    if d != 2 ^ k then none else
+    let n := q.num.natAbs
+    let t := Nat.log2 (Nat.gcd n (2 ^ 1100))        -- 2-adic valuation of the numerator
+    some ((t : Int) - (k : Int))
+  match vals.mapM val2 with
+  | none => false
+  | some [] => true
+  | some (v :: vs) =>
+    let e := vs.foldl (fun m x => if x < m then x else m) v
+    e ≥ -emax && e ≤ emax && vals.all (fun q => let w := q * pow2 (-e); w.den == 1 && w.num.natAbs < 16777216)
+
+partial def pointLike : Geom → Bool
+  | .point _ => true
+  | .multiPoint _ => true
+  | .collection gs => gs.all pointLike
+  | _ => false
+
 def f64Max : Rat := (9007199254740991 : Rat) * pow2 971
 
 /-- an implementation value: `none` = panic -/
@@ -140,7 +166,8 @@ def handleDist (inp out : List String) : String :=
   | some (a, a', b), some [ab, ba, a'b, cab, cba] =>
     if !(inDomain a && inDomain b) then skip "invalid-operand" else
     if !inDomain a' then skip "invalid-variant" else
-    if !(gridExact a && gridExact b && gridExact a') then skip "off-grid" else
+    if !((gridExact a && gridExact b && gridExact a') || dyadicGridAll 300 [a, b, a'] ||
+         (pointLike a && pointLike b && pointLike a' && dyadicGridAll 1000 [a, b, a'])) then skip "off-grid" else
     match specD2 a b, specD2 a' b with
     | some d2, some d2' =>
       if d2 != d2' then "ERR spec-not-representation-invariant " ++ ratStr d2 ++ " " ++ ratStr d2' else
@@ -160,7 +187,12 @@ def handleDist (inp out : List String) : String :=
           else if v != 0 && d2 == 0 then "FAIL:nonzero-but-intersecting"
           else if !closeTo v d2 then "FAIL:not-the-minimum"
           else if ba != ab then "FAIL:asymmetric"
-          else if a'b != ab then "FAIL:representation-dependent"
+          -- bit-identical for representations with the same segments; a subdivided representation (`LONG` variants:
+          -- coordinates that A does not have) reaches the minimum on another sub-segment, whose `|s|·hypot` rounds on its own:
+          -- there both values only have to be the minimum (checked above for A, here for A')
+          else if a'b != ab && (let ca := coordsIter a; let ca' := coordsIter a'; ca'.all (ca.contains ·) && ca.all (ca'.contains ·)) then
+            "FAIL:representation-dependent"
+          else if a'b != ab && !(match a'b with | some (.fin w) => closeTo w d2 | _ => false) then "FAIL:representation-dependent"
           else if cab != ab || cba != ab then "FAIL:enum-vs-concrete-type"
           else "PASS"
         | some _ => "FAIL:non-finite"
